@@ -72,7 +72,8 @@ type PackOpts struct {
 	NoEmptyTrack bool
 	AudioOnly    bool
 	BigSamples   bool
-	Styp         int // 0: seeded per segment, 1: every segment, 2: never
+	SplitTruns   bool // single-track fragments may carry their samples in two trun boxes (legal; built with CreateTrun/AddChild)
+	Styp         int  // 0: seeded per segment, 1: every segment, 2: never
 	MinSegs      int
 }
 
@@ -393,6 +394,18 @@ func Package(r *sim.Run, o PackOpts) (*Production, error) {
 					r.Event("AddSampleInterval", ti, k)
 					left[ti] -= k
 					total -= k
+				}
+			}
+			if o.SplitTruns && !multi && mode == "full" && t.Chance(250) {
+				traf := frag.Moof.Traf
+				if tr := traf.Trun; tr != nil && len(traf.Truns) == 1 && len(tr.Samples) >= 2 {
+					k := 1 + t.Draw(len(tr.Samples)-1)
+					tr2 := mp4.CreateTrun(1) // written second
+					tr2.AddSamples(append([]mp4.Sample(nil), tr.Samples[k:]...))
+					tr.Samples = tr.Samples[:k]
+					_ = traf.AddChild(tr2)
+					fr.Mode += "/2truns"
+					r.Event("split-trun", k)
 				}
 			}
 			for ti := range fr.To {
